@@ -6,6 +6,6 @@ for d in seeded/${1:-*}; do
   id=$(basename $d); pid=${id%%-*}
   cd /repo; git apply /verif/$d/patch.diff 2>/dev/null || git apply --3way /verif/$d/patch.diff 2>/dev/null || { echo "$id: patch does not apply"; git reset -q --hard HEAD; cd /verif; continue; }
   cd /verif; timeout 1500 ./check $pid quick > out/seeded_$id.log 2>&1; rc=$?
-  cd /repo; git reset -q --hard HEAD; cd /verif
+  cd /repo; git reset -q --hard HEAD; cd /verif; git checkout -q -- evidence 2>/dev/null
   echo "$id: check $pid rc=$rc violations=$(grep -ac '^VIOLATION' out/seeded_$id.log)"
 done
